@@ -111,7 +111,7 @@ def run_history(ctx, rng, case, est, Q, rate, hname, hf, keys, nsteps, p_pushpop
             ctx.count("diagnostic.layout_differs_from_lazy_fifo_model")
             counts[:] = got
         ctx.check(f.max_queue_size == Q, f"max_queue_size changed {where}", got=f.max_queue_size)
-        for k, at in tracked.items():
+        for k, at in ctx.alternating(list(tracked.items())):
             if eff_total - at < (Q - 1) * est:
                 ctx.counters["oracle_evaluations"] += 1
                 ctx.counters["window_checks"] += 1
